@@ -231,6 +231,24 @@ func runMultiparty(c *eng.Ctx, cfg pcfg) {
 			t.out(&s)
 			return []named{{"skIn", sk}, {"skOut", sk2}, {"crp", &crpc}}, func() (string, error) { err := pr.GenShare(sk, sk2, crpc, &s); return snapString(&s), err }
 		}})
+		// a key that does not use the auxiliary modulus, with a power-of-two decomposition (the generator walks the
+		// digits by scaling a copy of the input secret: the caller's key is an input)
+		{
+			lq, lp, w := p.MaxLevel(), -1, 5
+			evpNoP := rlwe.EvaluationKeyParameters{LevelQ: &lq, LevelP: &lp, BaseTwoDecomposition: &w}
+			crpNoP := mkP("x-nop").SampleCRP(crs("evk-nop"), evpNoP)
+			t.runSimple(simple{api: "multiparty.EvaluationKeyGenProtocol.GenShare", variant: "levelP=-1/base-two", build: func(dirty bool) ([]named, func() (string, error)) {
+				pr := mkP("evk-gen-nop")
+				s := pr.AllocateShare(evpNoP)
+				if dirty {
+					dirtyAny(&s)
+				}
+				sk, sk2 := e.sk.CopyNew(), e.sk2.CopyNew()
+				crpc := crpNoP
+				t.out(&s)
+				return []named{{"skIn", sk}, {"skOut", sk2}, {"crp", &crpc}}, func() (string, error) { err := pr.GenShare(sk, sk2, crpc, &s); return snapString(&s), err }
+			}})
+		}
 		pr := mkP("agg")
 		aggPatterns(t, "multiparty.EvaluationKeyGenProtocol.AggregateShares", mkShare, func(d bool) multiparty.EvaluationKeyGenShare {
 			s := pr.AllocateShare(e.evkPs...)
